@@ -97,9 +97,18 @@ def planar_arrays(rng, plane, headings, stamped=True):
 
 def run_project(run, case, arr, plane, mode, stamped, planar_mask, headings, preread, cls, sample):
     from evo.core.trajectory import Plane, TrajectoryException
-    tr = gen.make_evo(arr, mode, stamped)
+    prng = np.random.default_rng(list(case["rs"]) + [99])
+    tr = gen.make_evo(arr, mode, stamped, flavour=gen.rand_flavour(prng))
+    read_before = []
     if preread:
-        tr.positions_xyz, tr.orientations_quat_wxyz, tr.poses_se3
+        read_before = ["positions_xyz", "orientations_quat_wxyz", "poses_se3"]
+    elif prng.random() < .5:
+        # only some representations are cached when the projection happens
+        read_before = [a for a in ("positions_xyz", "orientations_quat_wxyz", "poses_se3", "distances")
+                       if prng.random() < .4]
+    for a in read_before:
+        getattr(tr, a)
+    cls = list(cls) + ["read before: " + ("+".join(x.split("_")[0] for x in read_before) or "nothing")]
     out = contracts.outcome_of(tr.project, Plane(plane))
     moved = bool(np.any(arr["p"][:, PLANES[plane]] != 0)) or bool(np.any(np.abs(headings) > 0))
     run.seen(case, core.digest(arr["p"], arr["R"], plane, mode, stamped), nontrivial=moved, cls=cls,
